@@ -3,6 +3,8 @@
 package merkletrie
 
 import (
+	"encoding/binary"
+
 	"github.com/algorand/go-algorand/crypto"
 	vr "github.com/algorand/go-algorand/internal/verifrt"
 )
@@ -229,7 +231,28 @@ func verifC17CheckRoot(mt *Trie, g *verifC17Ghost, cfg MemoryConfig) {
 	}
 }
 
+// encodePage, line for line, except that it writes into a right-sized buffer
+// instead of the 768 KB staging buffer commit() hands in: the engine's arrays
+// are persistent values, so every single byte store into that buffer copies
+// 768 K cells (measured: ~5 s per path, all of it in these stores). A buffer
+// that is too small panics (index out of range), i.e. shows up as a violation.
+// VerifC17EncodePageModel checks this model against the real encodePage.
+func verifC17EncodePage(mtc *merkleTrieCache, nodeIDs map[storedNodeIdentifier]*node, _ []byte) []byte {
+	serializedBuffer := make([]byte, 32+96*len(nodeIDs))
+	version := binary.PutUvarint(serializedBuffer[:], nodePageVersion)
+	length := binary.PutVarint(serializedBuffer[version:], int64(len(nodeIDs)))
+	walk := version + length
+	for nodeID, pnode := range nodeIDs {
+		n := binary.PutUvarint(serializedBuffer[walk:], uint64(nodeID))
+		walk += n
+		n = pnode.serialize(serializedBuffer[walk:])
+		walk += n
+	}
+	return serializedBuffer[:walk]
+}
+
 //verif:stub github.com/algorand/go-algorand/crypto.Hash = verifC17Hash
+//verif:stub (*github.com/algorand/go-algorand/crypto/merkletrie.merkleTrieCache).encodePage = verifC17EncodePage
 
 // History independence without intermediate commits: L operations on a new
 // trie, then RootHash (which commits once).
